@@ -211,15 +211,31 @@ htp_status_t htp_ch_multipart_callback_request_body_data(htp_tx_data_t *d) {
             // Use text parameters.
             if (part->type == MULTIPART_PART_TEXT) {
                 htp_param_t *param = calloc(1, sizeof (htp_param_t));
-                if (param == NULL) return HTP_ERROR;
-                param->name = part->name;
-                param->value = part->value;
-                param->source = HTP_SOURCE_BODY;
-                param->parser_id = HTP_PARSER_MULTIPART;
-                param->parser_data = part;
+                if (param != NULL) {
+                    param->name = part->name;
+                    param->value = part->value;
+                    param->source = HTP_SOURCE_BODY;
+                    param->parser_id = HTP_PARSER_MULTIPART;
+                    param->parser_data = part;
+                }
 
-                if (htp_tx_req_add_param(tx, param) != HTP_OK) {
+                if ((param == NULL) || (htp_tx_req_add_param(tx, param) != HTP_OK)) {
                     free(param);
+
+                    // The transaction owns the names and values of the parts
+                    // processed so far; the remaining ones are released here,
+                    // so that nothing is freed twice later.
+                    for (size_t j = i; j < n; j++) {
+                        htp_multipart_part_t *p = htp_list_get(body->parts, j);
+                        if (p->type != MULTIPART_PART_TEXT) continue;
+                        bstr_free(p->name);
+                        p->name = NULL;
+                        bstr_free(p->value);
+                        p->value = NULL;
+                    }
+
+                    tx->request_mpartp->gave_up_data = 1;
+
                     return HTP_ERROR;
                 }
             }
